@@ -160,7 +160,7 @@ def run_canaries(rep, M, cu, base):
         try:
             E = c09_calibrate.run_function(core.Fn(rel, qual, src_override=src.replace(a, b)), mk(), engine=eng)
             if expect: E.obs = [ob for ob in E.obs if ob.label.startswith(expect)]           # only the obligations the mutation must break (the full set is decided in the base run)
-            bad = sorted({ob.label for ob, st, dt, det, mv in pyvc.decide_parallel(E, E.spec, timeout=20000) if st != 'proved'})
+            bad = sorted({ob.label for ob, st, dt, det, mv in pyvc.decide_parallel(E, E.spec, timeout=20000, canary=True) if st != 'proved'})
             rep.canary(name, bool(bad), str([x[:70] for x in bad[:3]]))
         except pyvc.Unsupported as e: rep.canary(name, True, f'mutant leaves the engine subset: {e}')
     for name, rel, a, b, fam, expect in SYM_CANARIES:
